@@ -131,6 +131,8 @@ def edit_torrent(metafile: str, args: dict) -> dict:
     logger.debug("editing torrent file %s", metafile)
     meta = pyben.load(metafile)
     info = meta["info"]
+    # the request belongs to the caller, who may want to send it again
+    args = dict(args)
     filter_empty(args, meta, info)
 
     if "comment" in args:
